@@ -93,6 +93,190 @@ func vrtWait(d time.Duration, cond func() bool) bool {
 	return cond()
 }
 
+// ---- scenario 2: the connection is lost while part of a packet has been written ----
+
+type vrtRawConn struct {
+	mu  sync.Mutex
+	raw []byte // everything received after the handshake
+}
+
+type vrtPartialResult struct {
+	input string
+	kinds []string
+	fails []string
+}
+
+func vrtBigBody(id int64) []byte { return vbBody(id, int64(pktFrameMax)-id%5) }
+
+// parses a connection's byte stream from its first byte with a length-prefix reader; returns the ids of the
+// complete frames and the description of the first malformed one ("" if none; a cut last frame is not malformed)
+func vrtParseBig(raw []byte, known func(int64) bool) (ids []int64, badAt int, bad string) {
+	off := 0
+	for len(raw)-off >= pktHeadLen {
+		n := int(binary.LittleEndian.Uint32(raw[off:]))
+		if n < 8 || n > pktBodyMax {
+			return ids, off, "impossible length"
+		}
+		avail := len(raw) - off - pktHeadLen
+		if avail >= 8 {
+			id := int64(binary.LittleEndian.Uint64(raw[off+pktHeadLen:]))
+			if !known(id) {
+				return ids, off, "not an accepted packet"
+			}
+			want := vrtBigBody(id)
+			if len(want) != n {
+				return ids, off, "wrong length for its packet"
+			}
+			m := n
+			if avail < m {
+				m = avail
+			}
+			if string(raw[off+pktHeadLen:off+pktHeadLen+m]) != string(want[:m]) {
+				return ids, off, "body differs"
+			}
+			if avail >= n {
+				ids = append(ids, id)
+			}
+		}
+		if avail < n {
+			break
+		}
+		off += pktHeadLen + n
+	}
+	return ids, -1, ""
+}
+
+func vrtPartialScenario() (res vrtPartialResult) {
+	res.kinds = []string{"rt_partial"}
+	fail := func(f string) { res.fails = append(res.fails, f) }
+	outcome := "inconclusive"
+	defer func() {
+		res.kinds = append(res.kinds, "rt_partial_"+outcome)
+		res.input = "egress rt-partial: W190x64K upstream-stalls RST-mid-packet reconnect -> " + outcome
+	}()
+	ln, err := net.Listen("tcp", "127.0.0.1:0")
+	if err != nil {
+		return
+	}
+	defer ln.Close()
+	const hostTag = "verif2"
+	hsLen := len(receiver.TCPPrefix) + 1 + 4 + len(hostTag)
+	var mu sync.Mutex
+	var first net.Conn
+	firstCh := make(chan struct{})
+	var later []*vrtRawConn
+	go func() {
+		for n := 0; ; n++ {
+			c, err := ln.Accept()
+			if err != nil {
+				return
+			}
+			if tc, ok := c.(*net.TCPConn); ok {
+				_ = tc.SetReadBuffer(32 << 10)
+			}
+			hs := make([]byte, hsLen)
+			if _, err := io.ReadFull(c, hs); err != nil {
+				continue
+			}
+			if n == 0 {
+				first = c // the handshake is read, then nothing: the socket buffers fill up
+				close(firstCh)
+				continue
+			}
+			rc := &vrtRawConn{}
+			mu.Lock()
+			later = append(later, rc)
+			mu.Unlock()
+			go func() {
+				buf := make([]byte, 1<<16)
+				for {
+					k, err := c.Read(buf)
+					rc.mu.Lock()
+					rc.raw = append(rc.raw, buf[:k]...)
+					rc.mu.Unlock()
+					if err != nil {
+						return
+					}
+				}
+			}()
+		}
+	}()
+	e := NewEgress(EgressConfig{Address: ln.Addr().String(), HostTag: hostTag, ReconnectDelay: 200 * time.Millisecond})
+	h := newHandler(e)
+	defer func() {
+		h.Close()
+		_ = e.Close()
+	}()
+	select {
+	case <-firstCh:
+	case <-time.After(10 * time.Second):
+		return
+	}
+	next := int64(1)
+	var fwd, drp uint64
+	pushOne := func() {
+		_ = h.HandleMetricsBatchRaw(vrtBigBody(next))
+		next++
+		st := e.Stats()
+		fwd += st.ForwardedPackets
+		drp += st.DroppedPackets
+	}
+	for i := 0; i < 190; i++ { // ~12 MB: more than the socket buffers take, less than one send buffer holds
+		pushOne()
+		time.Sleep(time.Millisecond)
+	}
+	time.Sleep(1500 * time.Millisecond) // the sender is now blocked in the middle of a batch
+	if e.stats.writeErrors.Load() != 0 {
+		return
+	}
+	_ = first.Close() // unread data pending: RST, the blocked write fails with part of a packet written
+	lastOn := func() (ids []int64, badAt int, bad string, have bool) {
+		mu.Lock()
+		defer mu.Unlock()
+		if len(later) == 0 {
+			return nil, -1, "", false
+		}
+		rc := later[0]
+		rc.mu.Lock()
+		defer rc.mu.Unlock()
+		ids, badAt, bad = vrtParseBig(rc.raw, func(id int64) bool { return id >= 1 && id < next })
+		return ids, badAt, bad, len(rc.raw) > 0
+	}
+	done := func() bool {
+		ids, _, bad, have := lastOn()
+		return have && (bad != "" || (len(ids) > 0 && ids[len(ids)-1] == next-1))
+	}
+	for try := 0; try < 6 && !vrtWait(1500*time.Millisecond, done); try++ {
+		pushOne() // code with the timer defect F-C31 needs a further packet to hand over the rest
+	}
+	ids, badAt, bad, have := lastOn()
+	if !have || e.stats.writeErrors.Load() == 0 {
+		return
+	}
+	outcome = "clean"
+	if bad != "" {
+		outcome = "misframed"
+		if badAt == 0 {
+			// "written upstream byte-for-byte with its length frame": the new connection does not start with a frame
+			fail("egress_reconnect_stream_starts_at_frame_boundary")
+		} else {
+			fail("egress_bytes_corrupted")
+		}
+	}
+	for i := 1; i < len(ids); i++ {
+		if ids[i] <= ids[i-1] {
+			fail("egress_order_violated")
+		}
+	}
+	if bad == "" && (len(ids) == 0 || ids[len(ids)-1] != next-1) {
+		fail("egress_packet_lost") // healthy new connection, yet the last accepted packet never arrived
+	}
+	if drp != 0 || fwd != uint64(next-1) {
+		fail("egress_packet_not_counted")
+	}
+	return
+}
+
 func TestVerifEgressRT(t *testing.T) {
 	outDir := os.Getenv("VERIF_OUT")
 	if outDir == "" {
@@ -101,6 +285,15 @@ func TestVerifEgressRT(t *testing.T) {
 	_, _ = strconv.ParseUint(os.Getenv("VERIF_SEED"), 10, 64)
 	o := vu.NewOut(outDir)
 	defer o.Close()
+	partialCh := make(chan vrtPartialResult, 1)
+	go func() { partialCh <- vrtPartialScenario() }()
+	defer func() {
+		pr := <-partialCh
+		line := o.Case(pr.input, "CRetry (-1)", len(pr.fails) > 0 || pr.kinds[len(pr.kinds)-1] == "rt_partial_clean", pr.kinds...)
+		for _, f := range pr.fails {
+			o.Fail(f, line, pr.input)
+		}
+	}()
 
 	ln, err := net.Listen("tcp", "127.0.0.1:0")
 	if err != nil {
